@@ -7,10 +7,30 @@ def run(ctx):
     ctx.exhaustive("Router_MC", "Router_MC_time", timeout=1800)
     if not ctx.quick:
         ctx.exhaustive("Router_MC", "Router_MC_rules", timeout=1200)
+    # the memory cache at the grain of its critical sections (entry objects and value buffers are recycled, the
+    # table reports removals late): exhaustive, with three code variants that must be rejected
+    ctx.exhaustive("MemCache_MC", "MemCache_MC", timeout=900)
+    ctx.exhaustive("MemCache_MC", "MemCache_live", timeout=900)
+    if not ctx.quick:
+        ctx.exhaustive("MemCache_MC", "MemCache_thorough", timeout=3000)
+    for cfg in ("MemCache_bug_latecopy", "MemCache_bug_nokey", "MemCache_bug_nolock"):
+        r = vf.tlc("MemCache_MC", cfg=cfg, timeout=600)
+        if r.ok or r.violated != "Inv_C07_HitOwnValue":
+            raise vf.MachineryError("sensitivity run %s was not rejected" % cfg)
+    # ... and the real cache.MemoryCache under eviction pressure: what the lookups returned
+    cdrv = vf.build_driver("cachedrv")
+    for tag, extra in (("mc", []), ("mcnp", ["-nopoison"])):
+        t = ctx.path(tag + ".ndjson")
+        ctx.driver(cdrv, ["-out", t, "-ms", 4000 if ctx.quick else 40000] + extra, timeout=900)
+        ctx.validate("MemCacheTrace", t, lambda ev, inv: "%s:memcache" % inv,
+                     describe=lambda ev, inv: "%s: lookup of key %s returned key %s version %s (stored so far: %s), intact=%s" % (
+                         inv, ev.get("k"), ev.get("rk"), ev.get("rn"), ev.get("maxv"), ev.get("intact")),
+                     only=["Inv_C07_", "Unconsumable"], require_events=50)
     args = ["-thorough"] if not ctx.quick else []
     trace, _ = routerfam.run_mode(ctx, drv, "c07", args)
     routerfam.validate(ctx, trace, only=["Inv_C07_", "Unconsumable"], require_events=600)
     ctx.assumptions += [
+        "memory cache component: interleavings are enumerated in MemCache.tla (2-3 callers, 3 entry objects, 3 buffers, 2-3 versions per key); the real cache is sampled (32 goroutines, 600 keys on a 24 KB cache, 1-2.5 s expiries), with poisoned and with pass-through buffer pools",
         "memory cache only: the redis second-level cache needs a server and is not exercised",
         "must-hit clause is checked only outside the refresh window and with >1 s (+50 ms margin) of lifetime left, on an 8 MB cache (ample capacity)",
         "the key bytes seen by the hook are compared with the specification's KeyBytes(name, class, type, group)",
